@@ -289,6 +289,13 @@ func run(c *core.Ctx) {
 	gens.IndentChains(each("indent-chains", false))
 	gens.Tables(c.Quick(), !c.Quick(), each("tables", true))
 	longFamily(each("long", false))
+	// the scale family: counts, depths and string lengths on both sides of every fixed capacity
+	sc := each("scale", false)
+	for _, d := range gens.ScaleDocs(c.Quick()) {
+		if !sc(d.Tree) {
+			break
+		}
+	}
 }
 
 func nontrivial(t any) bool {
